@@ -53,7 +53,7 @@ func wsContent(e wsEntry) string {
 }
 
 func wsIsScript(e wsEntry) bool {
-	return e.Type == "file" && (strings.HasSuffix(e.Name, ".p") || strings.HasSuffix(e.Name, ".ppl"))
+	return (e.Type == "file" || e.Type == "link") && (strings.HasSuffix(e.Name, ".p") || strings.HasSuffix(e.Name, ".ppl"))
 }
 
 func markersOf(fields map[string]any) []string {
@@ -141,7 +141,17 @@ func replayWorkspace(args []string) (any, error) {
 						continue
 					}
 					texts[e.Name] = wsContent(e)
-					_ = os.WriteFile(filepath.Join(ws, e.Name), []byte(texts[e.Name]), 0o644)
+					if e.Type == "link" { // the script is kept outside the workspace; the workspace holds a symbolic link to it
+						target := filepath.Join(dir, "kept-elsewhere-"+e.Name)
+						_ = os.WriteFile(target, []byte(texts[e.Name]), 0o644)
+						if err := os.Symlink(target, filepath.Join(ws, e.Name)); err != nil {
+							mu.Lock()
+							firstErr = err
+							mu.Unlock()
+						}
+					} else {
+						_ = os.WriteFile(filepath.Join(ws, e.Name), []byte(texts[e.Name]), 0o644)
+					}
 					if wsIsScript(e) {
 						wantScripts = append(wantScripts, e.Name)
 					}
